@@ -538,6 +538,108 @@ theorem monitor_accepts_runs {kind : Nat → Kind} {ls : List Label} {s : State}
   have := sim_run (inv_init kind) hsim h
   simp [holdsOn, monitor, foldl_visible, this.ok]
 
+/-! ### ephemeral sessions (stateless streamable server, F14 repaired) -/
+
+structure SimE (s : State) (m : Mon) : Prop where
+  ret : ∀ i, i ∈ m.returned → i ∈ m.finished
+  pred : ∀ p, p ∈ m.sentAfter → p.1 ∈ m.finished
+  fin : ∀ i, i ∈ m.finished ↔ s.phase i = .done
+  ok : m.bad = none
+
+theorem simE_step {kind : Nat → Kind} {s s' : State} {l : Label} {m : Mon}
+    (hsim : SimE s m) (h : stepE s l = some s') : SimE s' (m.stepL kind l) := by
+  cases l <;> simp only [stepE] at h
+  case send k =>
+    split at h <;> simp at h
+    rename_i hu; subst h
+    refine ⟨by simpa [Mon.stepL, Label.vis, Mon.step] using hsim.ret, ?_, ?_, by simp [Mon.stepL, Label.vis, Mon.step, hsim.ok]⟩
+    · intro p hp
+      simp only [Mon.stepL, Label.vis, Mon.step, List.mem_append, List.mem_map, List.mem_filter] at hp ⊢
+      rcases hp with hp | ⟨a, ⟨ha, _⟩, rfl⟩
+      · exact hsim.pred p hp
+      · exact hsim.ret a ha
+    · intro a
+      simp only [Mon.stepL, Label.vis, Mon.step, setPhase_phase]
+      by_cases e : a = k
+      · subst e; simp; intro hf; have := (hsim.fin a).1 hf; simp [hu] at this
+      · simp [e]; exact hsim.fin a
+  case start k =>
+    split at h <;> simp at h
+    rename_i hu; subst h
+    have hfind : (m.sentAfter.find? fun p => p.2 == k && !m.finished.contains p.1) = none := by
+      rw [List.find?_eq_none]
+      intro p hp
+      simp
+      intro _
+      exact hsim.pred p hp
+    refine ⟨?_, ?_, ?_, ?_⟩
+    · simp only [Mon.stepL, Label.vis, Mon.step, hsim.ok, hfind]; exact hsim.ret
+    · simp only [Mon.stepL, Label.vis, Mon.step, hsim.ok, hfind]; exact hsim.pred
+    · intro a
+      simp only [Mon.stepL, Label.vis, Mon.step, hsim.ok, hfind, setPhase_phase]
+      by_cases e : a = k
+      · subst e; simp; intro hf; have := (hsim.fin a).1 hf; simp [hu] at this
+      · simp [e]; exact hsim.fin a
+    · simp only [Mon.stepL, Label.vis, Mon.step, hsim.ok, hfind]
+  case cb k =>
+    split at h <;> simp at h
+    subst h; exact hsim
+  case fin k =>
+    split at h <;> simp at h
+    subst h
+    refine ⟨?_, ?_, ?_, by simp [Mon.stepL, Label.vis, Mon.step, hsim.ok]⟩
+    · intro a ha
+      simp only [Mon.stepL, Label.vis, Mon.step] at ha ⊢
+      exact List.mem_cons_of_mem _ (hsim.ret a ha)
+    · intro p hp
+      simp only [Mon.stepL, Label.vis, Mon.step] at hp ⊢
+      exact List.mem_cons_of_mem _ (hsim.pred p hp)
+    · intro a
+      simp only [Mon.stepL, Label.vis, Mon.step, setPhase_phase, List.mem_cons]
+      by_cases e : a = k
+      · subst e; simp
+      · simp [e]; exact hsim.fin a
+  case ret k =>
+    split at h
+    · simp at h
+    · split at h <;> simp at h
+      rename_i hd; subst h
+      refine ⟨?_, by simpa [Mon.stepL, Label.vis, Mon.step] using hsim.pred, by simpa [Mon.stepL, Label.vis, Mon.step] using hsim.fin, by simp [Mon.stepL, Label.vis, Mon.step, hsim.ok]⟩
+      intro a ha
+      simp only [Mon.stepL, Label.vis, Mon.step, List.mem_cons] at ha ⊢
+      rcases ha with rfl | ha
+      · exact (hsim.fin a).2 hd
+      · exact hsim.ret a ha
+  all_goals simp at h
+
+theorem simE_run {kind : Nat → Kind} {s s' : State} {ls : List Label} {m : Mon}
+    (hsim : SimE s m) (h : runE s ls = some s') : SimE s' (ls.foldl (Mon.stepL kind) m) := by
+  induction ls generalizing s m with
+  | nil => simp [runE] at h; subst h; exact hsim
+  | cons l ls ih =>
+    simp only [runE] at h
+    cases h1 : stepE s l with
+    | none => simp [h1] at h
+    | some s1 => simp [h1] at h; exact ih (simE_step hsim h1) h
+
+/-- Stateless streamable server (one temporary session per POST; the POST's response, the 202 of a
+notification included, is produced only after that session handled the message): for ALL label lists
+that are runs of `stepE`, and whatever the kinds of the messages, the property monitor holds. -/
+theorem ephemeral_runs_satisfy_monitor (kind : Nat → Kind) {ls : List Label} {s : State}
+    (h : runE init ls = some s) : holdsOn kind (visible ls) = true := by
+  have hsim : SimE init ({} : Mon) := ⟨by simp, by simp, by intro i; simp [init], rfl⟩
+  have := simE_run (kind := kind) hsim h
+  simp [holdsOn, monitor, foldl_visible, this.ok]
+
+/-- Counter-example for the behaviour before the repair (F14): if the 202 of a notification may go out
+before its handler ran (`ret 0` before `start 0`), a later call can be handled first — such a trace is
+rejected by the monitor and is not a run of `stepE`. -/
+theorem ephemeral_early_ack_breaks_order :
+    holdsOn (fun k => if k = 0 then .note else .call)
+      (visible [.send 0, .ret 0, .send 1, .start 1, .fin 1, .ret 1, .start 0, .fin 0]) = false
+    ∧ runE init [.send 0, .ret 0, .send 1, .start 1, .fin 1, .ret 1, .start 0, .fin 0] = none := by
+  constructor <;> decide
+
 /-- The monitor is not vacuous: it rejects a trace in which call 1, sent after notification 0 had
 returned, starts while the handler of 0 is still running. -/
 example : holdsOn (fun k => if k = 0 then .note else .call)
